@@ -157,3 +157,9 @@ def r6(rr, repo):
     from .c01 import r8 as c01r8, r9 as c01r9
     c01r8(rr, repo)
     c01r9(rr, repo)
+
+
+@rule('C07.R7', 'a frame overtaken at the rejoin is dropped, not re-sent under a new id: MQ.send() asks for a retry only after a timeout and uses up the id handed over by recv() (shares C02.R7)')
+def r7(rr, repo):
+    from .c02 import r7 as c02r7
+    c02r7(rr, repo)
